@@ -103,7 +103,7 @@ def replay(rp):
         print('replay: nothing to execute:', rp.get('kind'))
         return 1
     m = topo.build_impl(spec)
-    bad = property_on_impl(topo.observe_impl(m))
+    bad = topo.pulse_geometry_bad(m) or property_on_impl(topo.observe_impl(m))
     print('replay', json.dumps(spec)[:200], '->', bad or 'property holds')
     return 1 if bad else 0
 
@@ -125,6 +125,10 @@ def run(ck):
             ck.count(k, v)
         ck.count('fuzzed' if spec['fuzz'] else 'exact')
         ck.count('ground' if spec['ground'] else 'free')
+        gb = topo.pulse_geometry_bad(m)
+        if gb:
+            ck.violation(dict(kind='topology', spec=spec, observed=gb))
+            return
         why = None
         if r['status'] != 'ok':
             why = 'model status ' + r['status']
